@@ -65,11 +65,11 @@ def _ref_act(name):
 
 
 @st.composite
-def gen_softmax(draw):
+def gen_softmax(draw, levels=True):
     shp = draw(gen.shapes(1, 4, 60))
     nd = len(shp)
     v = draw(gen.grid(shp))
-    if draw(st.integers(0, 3)) == 0:
+    if levels and draw(st.integers(0, 3)) == 0:
         # slices at very different levels (a per-element offset that is constant along no particular dim)
         n = len(v)
         lv = [draw(st.sampled_from([0.0, 0.0, 200.0, -200.0, 1000.0, -1000.0])) for _ in range(min(n, 6))]
